@@ -22,7 +22,8 @@ ASSUMPTIONS = [
     'driver events are well formed: ASCII strings, counter ids inside the counters buffer, an existing log file with legal geometry, '
     'exclusive-publication answers carry registration id = correlation id; error code 4 (channel endpoint) is not generated',
     'callbacks do not call back into the client; the clock stays below 2^62 and above the linger time-out (C11/C12)',
-    'find_exclusive_publication is pub(crate): exclusive publications are exercised through add, answers and close only',
+    'find_exclusive_publication is pub(crate): it is reached through the add-only hook ClientConductor::find_exclusive_publication_for_verif '
+    '(hooks/cond-find-exclusive.diff); while the repository lacks the hook exclusive publications are exercised through add, answers and close only',
 ]
 TRUSTED = ['harness/c09 encodes driver events by hand from the flyweight layouts (checked by C14) and decodes commands from the layouts of C13']
 
@@ -40,6 +41,10 @@ impl_line = cc.impl_line
 model_expr = cc.model_expr
 shrink = cc.shrink
 normalize = cc.normalize
+
+
+def extra_checks(run):
+    return [cc.hook_note()]
 
 
 def oracle_expr(case, mode, obs):
